@@ -1,6 +1,7 @@
 """C18 -- reports are bound to context, nonce, role and key (exact query tuples + mismatch lattice)."""
 import vlib
 from props import prio3_common as pc
+from props import c11
 
 
 def run(chk):
@@ -8,6 +9,12 @@ def run(chk):
     for p in (17, 193) + ((40961,) if thorough else ()):
         scn, n = pc.scenarios(chk, p)
         pc.record_and_validate(chk, p, "mismatch", scn, n if thorough else (60 if p == 17 else 15), "mismatch-p%d" % p)
+    # (iii) the XOFs themselves (src/vdaf/xof.rs): what Prio3/Poplar1 put into a tag or binder must reach the stream --
+    # multi-part tags and binders that differ in exactly one part give streams that never share their first 16 bytes
+    res = vlib.run_tlc("MC_C11", "MC_C11_XofSep", workers=4, timeout=600, tag="c18xofsep")
+    vlib.tlc_ok(res, "MC_C11_XofSep")
+    chk.add_tlc(res, "xof-separation-scripts")
+    c11.xof_scripts(chk, sorted(res.replay), "c18sep")
     chk.exhaustive = False
     chk.explanation = (
         "(i) structural: every XOF query the real Prio3 makes is recorded as (seed, dst, binder); the trace spec derives every value from the table by asking for "
@@ -15,7 +22,9 @@ def run(chk):
         "query randomness; num_proofs and id in the proof share) -- a derivation that binds anything else finds no table entry and the trace is rejected at that "
         "event. (ii) behavioural: for every circuit/measurement scenario the mismatch lattice (ctx / nonce / verify key / ctx+nonce / key+nonce at one aggregator or "
         "at all; a neighbour's identifier and share; identifier out of range) is executed and TLC recomputes the exact verdict and outputs on the tiny field, "
-        "including the documented exception (nonce substituted consistently without joint randomness yields the honest output shares).")
+        "including the documented exception (nonce substituted consistently without joint randomness yields the honest output shares). (iii) XOF level: on TurboSHAKE128, "
+        "HMAC-SHA256-AES128 and fixed-key AES128, tags and binders of several parts that differ in exactly one (late or empty) part are validated by C11_Trace.tla: equal "
+        "concatenations give one stream, different ones never share their first 16 bytes -- so a context string appended as a second tag part cannot be dropped inside the XOF.")
     chk.assumptions = ["Poplar1's binding is checked under C03/C04 (IDPF keys are not generic in the XOF)"]
 
 
